@@ -13,6 +13,7 @@ Theorem C17_loopback_same_depth :
     t = KNormal \/ t = KContinue ->
     call_cont zeroV (S n) d (KFor cd p b c k dl (get_epoch m c)) t v m = loop zeroV n dl cd p b c k false m.
 Proof. exact loopback_same_depth. Qed.
+Print Assumptions C17_loopback_same_depth.
 
 Theorem C17_bounded_partial :
   forall (U V P : Type) (zeroV : V) n dl cd p t c g sk (m : st U V P) r,
